@@ -12,7 +12,11 @@ Record Num (T : Type) := mkNum {
   nadd : T -> T -> T; nsub : T -> T -> T; nmul : T -> T -> T; ndiv : T -> T -> T; nZ : Z -> T }.
 Arguments nadd {T}. Arguments nsub {T}. Arguments nmul {T}. Arguments ndiv {T}. Arguments nZ {T}.
 Definition RNum : Num R := mkNum R Rplus Rminus Rmult Rdiv IZR.
-Definition QNum : Num Q := mkNum Q Qplus Qminus Qmult Qdiv inject_Z.
+Definition QNum : Num Q :=
+  mkNum Q (fun a b => Qred (Qplus a b)) (fun a b => Qred (Qminus a b)) (fun a b => Qred (Qmult a b)) (fun a b => Qred (Qdiv a b)) inject_Z.
+
+(* plain (non-normalising) rationals: cheaper for shallow expressions such as the closed form *)
+Definition QNumPlain : Num Q := mkNum Q Qplus Qminus Qmult Qdiv inject_Z.
 
 Section LameClosedForm.
   Context {T : Type} (N : Num T).
